@@ -12,6 +12,7 @@ struct VProgram {
     int bound = 2;                 // preemption bound to complete (bounds 0..bound are run in turn)
     bool unlock_points = false;    // extra scheduling point after every unlock
     int horizon = 20000;
+    int spurious = 0;              // spurious condition-variable wake-ups that may be generated per execution (each costs 1 from the bound)
     std::function<void()> body;    // runs as controlled thread 0; creates the object under test and the threads
     std::function<void()> post;    // optional: runs after the execution, outside the scheduler
     uint64_t (*state_cb)() = nullptr;
